@@ -193,6 +193,9 @@ class _Interp1d:
     def __init__(self, x, fx):
         self._x = np.abs(np.asarray(x))
         self._fx = np.abs(np.asarray(fx))
+        # np.interp needs rising x: a table given with negative signs rises by sign only
+        order = np.argsort(self._x)
+        self._x, self._fx = self._x[order], self._fx[order]
 
     def _interp(self, x: float, y: float) -> float:
         """1D interpolation"""
